@@ -188,6 +188,11 @@ func runC05(c c05Case) (violation string, nontrivial bool, labels []string) {
 				g := gcd64(wa, W)
 				wan, Wn := wa/g, W/g
 				tol := new(big.Int).Add(big.NewInt(1), ceilMulFracBig(totalBefore.BigInt(), 4, 100_000_000))
+				// the power approximation's 1e-8 is relative to the power itself, (1+a/B)^(w/W) <= 1+a/B: for deposits
+				// that are multiples of the reserve the allowance grows by that factor
+				if ja := r.joined.AmountOf(op.Denom); ja.GT(ba) && ba.IsPositive() {
+					tol.Mul(tol, new(big.Int).Add(big.NewInt(2), new(big.Int).Quo(ja.BigInt(), ba.BigInt())))
+				}
 				lhsBase := new(big.Rat).Quo(new(big.Rat).SetInt(new(big.Int).Add(totalBefore.BigInt(), new(big.Int).Sub(r.shares.BigInt(), tol))), ratFromInt(totalBefore))
 				rhsBase := new(big.Rat).Quo(ratFromInt(ba.Add(r.joined.AmountOf(op.Denom))), ratFromInt(ba))
 				if lhsBase.Sign() > 0 && ratPow(lhsBase, Wn).Cmp(ratPow(rhsBase, wan)) > 0 {
@@ -329,6 +334,13 @@ func TestC05(t *testing.T) {
 			case 2:
 				d := []string{"uaaa", "ubbb"}[UniformDraw(rt, "jd", 2)]
 				amt := maxInt(reserveOf(&p, d).MulRaw(int64(1+UniformDraw(rt, "sppm", 900_000))).QuoRaw(1_000_000), sdkmath.OneInt())
+				if UniformDraw(rt, "smult?", 4) == 0 {
+					// "deposit sizes from dust to multiples of the pool"
+					amt = reserveOf(&p, d).MulRaw(int64(1 + UniformDraw(rt, "smult", 12))).AddRaw(int64(UniformDraw(rt, "smultd", 3)) - 1)
+					if !amt.IsPositive() {
+						amt = sdkmath.OneInt()
+					}
+				}
 				op = c05Op{Kind: "join-single", A: amt.String(), Denom: d}
 			case 3, 4:
 				var s sdkmath.Int
